@@ -18,7 +18,7 @@ THEOREMS = ['Tbox.C09.' + t for t in [
     'C09_disable_retry_counterexample', 'C09_file_midbatch_rollover_counterexample', 'C09_file_persistent_open_failure', 'C09_flushK_len',
     'C09_stdout_faults', 'C09_stdout_faults_write_only', 'C09_stdout_short_write_counterexample', 'C09_stdout_poll_break_counterexample',
     'C09_piece_whole', 'C09_render_pieces', 'C09_piece_overread_counterexample',
-    'C09_file_reopen_whole_records_partial', 'C09_file_reconf_tail_counterexample', 'C09_file_setmax',
+    'C09_file_reopen_whole_records', 'C09_file_reopen_on_disk', 'C09_file_reopen_deferred', 'C09_file_reconf_tail_counterexample', 'C09_file_setmax', 'C09_flushR_len',
     'C09_truncate_width', 'C09_vsnprintf_negative_counterexample', 'C09_puts_width', 'C09_reentrant_sink_deadlocks']]
 SOURCES = ['modules/log/sink.cpp', 'modules/log/async_sink.cpp', 'modules/log/async_file_sink.cpp',
            'modules/log/async_stdout_sink.cpp', 'modules/log/async_syslog_sink.cpp', 'modules/log/sync_stdout_sink.cpp',
@@ -52,7 +52,7 @@ TRUSTED = ['model lean/TboxModel/C09/Model.lean hand-written from log_impl.cpp, 
            'thread really waits in poll(), and `sig` delivers a handled SIGUSR1 to exactly that thread with pthread_kill (poll fails with EINTR: recorded); a reader thread '
            'drains the pipe when off begins.  No P line depends on how many polls were interrupted or on any timing',
            'file sinks reconfigured while in use (fcfg: setFilePath / setFilePrefix / setFileSyncEnable / setFileMaxSize, to the same or a new value) are called at quiescent '
-           'points (after settle); files of several directories / prefixes are listed in the order in which their open(O_CREAT) succeeded (recorded by the interposer)',
+           'points (after settle: the back-end thread is idle - but a tail may be cached after a write error, and then the close is deferred, patches/C09-09); files of several directories / prefixes are listed in the order in which their open(O_CREAT) succeeded (recorded by the interposer)',
            'pthread_mutex_lock/unlock are interposed only to detect a re-lock of a held non-recursive mutex inside the re-entrancy probe (EDEADLK instead of blocking for ever)',
            'data-race freedom itself is not exhibited by the model: it is searched with ThreadSanitizer in the thorough tier (1-8 threads logging while '
            'the main thread enables/disables/reconfigures sinks, also concurrently: runc)']
@@ -64,9 +64,9 @@ ASSUMPTIONS = ['names of any length are delivered whole after patches/C09-08 (C0
                '(enable_color_ is an unsynchronised bool)',
                'what the kernel refuses for ever cannot be on disk: it is retained in memory without bound (C09_file_whole_records_faults); close() failing is ignored '
                'by the code (data the kernel drops at close is outside the model); a hard error on fd 1 drops the rest of that batch (C09_stdout_faults); '
-               'syslog and stdio writes are complete; the log directory is not modified by others; setFilePath/Prefix/SyncEnable are not called while a tail is cached after a write '
-               'error (C09_file_reconf_tail_counterexample + props/C09/findings/reconf-with-cached-tail.ops: the tail goes to the NEW file, the record is split) and not concurrently '
-               'with a flush (fd_ is an unsynchronised int); a text that ends in "(TRUNCATED)" is indistinguishable from a truncated text in the rendered line (the format has no escape)',
+               'syslog and stdio writes are complete; the log directory is not modified by others; setFilePath/Prefix/SyncEnable may be called at ANY quiescent moment, also while a tail is cached after a write '
+               'error (patches/C09-09 defers the close: C09_file_reopen_whole_records, corpus/C09/12-*.ops; as found the record was split: C09_file_reconf_tail_counterexample), but not concurrently '
+               'with a flush (fd_, cache_ and need_reopen_ are unsynchronised); a text that ends in "(TRUNCATED)" is indistinguishable from a truncated text in the rendered line (the format has no escape)',
                'EINTR: write(fd_) and write(1) retry it (tied, interposed and, for fd 1, with a real signal); poll() after EAGAIN: its result is ignored, the loop retries (tied both ways); '
                'open()/mkdir()/symlink()/unlink() of the log file: EINTR is treated like any other failure - the cache is kept and the next flush() tries again (tied: kfault o/d/y = EINTR-class errors); '
                'close(): result ignored, never retried (correct on Linux: the descriptor is released whatever close() reports; tied: c = EINTR / EIO); no fsync/fdatasync call exists '
@@ -88,7 +88,7 @@ LEVEL_TEXT = ('Lean 4 theorems over a model of the logging path: truncation loop
               'EVERY chunking and every header layout, rendering of every sink (file, sync/async stdout, syslog; colour on/off; tables regenerated from the source), '
               'file rollover with whole records, flush on disable, no loss/duplication/split for EVERY kernel fault schedule (short counts, EINTR, hard errors, failing open; '
               'retained tail, retry on disable), the stdout sink under every fd-1 fault schedule INCLUDING every answer of poll() after EAGAIN (EINTR from a signal is retried), the 1 KiB '
-              'pieces for names of every length, reconfiguration of a file sink in use (with the cached-tail counterexample), the width-carrying format loop (int/size_t/uint32), re-entrant channel deadlock; tied to the real code on every '
+              'pieces for names of every length, reconfiguration of a file sink in use at ANY moment (whole records also with a cached tail: deferred close, need_reopen_), the width-carrying format loop (int/size_t/uint32), re-entrant channel deadlock; tied to the real code on every '
               'run by a trace acceptor over multi-threaded runs against in-memory sinks, a real AsyncFileSink directory, captured fd 1 and captured syslog(); '
               'ThreadSanitizer pass in the thorough tier')
 LEVEL_NOTE = ('trusted: Lean kernel, hand-written model + trace-acceptor tie (coverage bounded by the generator, measured), async pipe by contract (C10), '
@@ -271,6 +271,42 @@ def state_cases(rng, tier):
                'run 2 ' + ' '.join('%d:5:a:%s:%s:7:m:%d:%d' % (i % 2, 'f-'[i % 2], ['x.cpp', '-'][i // 2 % 2], i % 4, i) for i in range(8)), 'off 2', 'off 3']
 
 
+def reconf_tail_cases(rng, tier):
+    """setFilePath / setFilePrefix / setFileSyncEnable on an enabled file sink WHILE A TAIL IS CACHED after a write error (part of a
+    record is in the open file): the close must wait until the rest of the record is in the same file (patches/C09-09, need_reopen_);
+    with nothing cached or no file open the close is immediate.  Every setter, same and new value, several setters in a row, the tail
+    written by the next batch / by the retry of disable() / only after a second failure, together with the limit being reached"""
+    quick = tier == 'quick'
+    setters = ['path same', 'path new', 'prefix same', 'prefix new', 'sync 0', 'sync 1']
+    one = '0:5:a:f:x.cpp:1:p:20:1'
+    # (1) the minimal history: the tail goes to disk at disable()
+    for what in (setters if not quick else [setters[0], rng.choice(setters[1:])]):
+        yield ['sink file 100000 1 1 2 1', 'kfault 1 w0=7 w1=%s' % rng.choice(HARD), 'run 1 ' + one, 'settle 100', 'fcfg 1 ' + what, 'off 1']
+    # (2) the tail is written by the flush of the next batch; that flush closes the file; later records open the new one
+    for what in (setters if not quick else rng.sample(setters, 2)):
+        L = rng.choice([1, 60, 100000])
+        cut = rng.choice([1, 7, 30, 59])
+        yield ['sink file %d 1 1 2 1' % L, 'kfault 1 w1=%d w2=%s' % (cut, rng.choice(HARD)), 'run 1 ' + recs(2), 'settle 100', 'fcfg 1 ' + what,
+               'run 1 ' + recs(3), 'settle 100', 'fcfg 1 ' + rng.choice(setters), 'run 2 ' + recs(4, 2), 'off 1', 'on 1', 'run 1 ' + recs(2), 'off 1']
+    # (3) several setters on one tail; the retry of disable() fails too (the tail stays, the file stays open, the flag stays), a setter while
+    # disabled, recovery after enable
+    yield ['sink file 100000 1 1 2 1', 'kfault 1 w0=7 W1=ENOSPC', 'run 1 ' + one, 'settle 100', 'fcfg 1 prefix new', 'fcfg 1 path new', 'fcfg 1 max 1', 'off 1',
+           'fcfg 1 sync 1', 'kfault 1 w0=3 w1=EIO', 'on 1', 'run 1 ' + recs(2), 'settle 100', 'fcfg 1 path same', 'off 1', 'on 1', 'run 1 ' + recs(2), 'off 1']
+    # (4) a tail cached but NO file open (open refused): nothing to defer, the setter takes effect at once
+    yield ['sink file 100 1 1 2 1', 'kfault 1 o0=EMFILE', 'run 1 ' + one, 'settle 100', 'fcfg 1 path new', 'run 1 ' + recs(3), 'off 1']
+    # (5) one big batch cut in the middle of a record exactly where the limit is reached, reconfigured, finished by disable()
+    for L in ([100] if quick else [1, 100, 400]):
+        yield ['sink file %d 10240 2 20 100' % L, 'kfault 1 w0=%d w1=%s' % (rng.choice([L, L + 1, 150]), rng.choice(HARD)), 'run 2 ' + recs(10, 2), 'off 1',
+               'fcfg 1 ' + rng.choice(setters), 'on 1', 'run 1 ' + recs(3), 'off 1']
+    # (6) random fault plans with setters at quiescent points
+    for _ in range(4 if quick else 60):
+        L = rng.choice([1, 40, 80, 150, 300, 100000])
+        ops = ['sink file %d 1 1 2 1' % L, 'kfault 1 ' + rand_plan(rng, True, rng.choice([2, 4, 8]))]
+        for _ in range(rng.choice([2, 3, 4])):
+            ops += ['run 1 ' + recs(rng.choice([1, 2, 4])), 'settle 100', 'fcfg 1 ' + rng.choice(setters + ['max %d' % rng.choice([1, 50, 100000])])]
+        yield ops + ['off 1', 'on 1', 'run 1 ' + recs(2), 'off 1']
+
+
 def width_cases(rng, tier):
     """conversions int -> size_t -> uint32_t in LogPrintfFunc: limits and lengths on both sides of 2^16, the formatted length as a printf
     field width (no memory needed) up to INT_MAX and beyond (vsnprintf fails: EOVERFLOW), an encoding error (%lc)"""
@@ -434,6 +470,8 @@ def gen(rng, tier):
     for c in name_cases(rng, tier):
         yield c
     for c in state_cases(rng, tier):
+        yield c
+    for c in reconf_tail_cases(rng, tier):
         yield c
     for c in paced_cases(rng):
         yield c
